@@ -100,6 +100,17 @@ type Fixture struct {
 	closed bool
 
 	poolEvents bool
+
+	// Events is the log of chain events seen since the caller last reset it
+	// (in the order the node emitted them).
+	Events []Event
+}
+
+// Event is one chain notification: Kind is "connected", "disconnected" or
+// "processed".
+type Event struct {
+	Kind  string
+	Block *types.Block
 }
 
 var (
@@ -124,7 +135,20 @@ func initGlobals(logDir string) {
 // three cases that maintain the transaction pool.
 func onEvent(e *events.Event) {
 	f := cur
-	if f == nil || f.closed || !f.poolEvents {
+	if f == nil || f.closed {
+		return
+	}
+	if block, ok := e.Data.(*types.Block); ok {
+		switch e.Type {
+		case events.ETBlockProcessed:
+			f.Events = append(f.Events, Event{"processed", block})
+		case events.ETBlockConnected:
+			f.Events = append(f.Events, Event{"connected", block})
+		case events.ETBlockDisconnected:
+			f.Events = append(f.Events, Event{"disconnected", block})
+		}
+	}
+	if !f.poolEvents {
 		return
 	}
 	switch e.Type {
@@ -503,6 +527,24 @@ func (f *Fixture) BuildBlock(parent *types.Block, txs []interfaces.Transaction, 
 	b.Header.AuxPow = *ap
 	f.blocks[b.Hash()] = b
 	return b, nil
+}
+
+// Resolve re-mines b after its header or transactions were edited by the
+// caller (merkle root is NOT recomputed: set it yourself) and registers it.
+func (f *Fixture) Resolve(b *types.Block) *types.Block {
+	ap := auxpow.GenerateAuxPow(b.Hash())
+	ap.ParBlockHeader.Timestamp = b.Timestamp
+	target := blockchain.CompactToBig(b.Bits)
+	for n := uint32(0); ; n++ {
+		ap.ParBlockHeader.Nonce = n
+		h := ap.ParBlockHeader.Hash()
+		if blockchain.HashToBig(&h).Cmp(target) <= 0 {
+			break
+		}
+	}
+	b.Header.AuxPow = *ap
+	f.blocks[b.Hash()] = b
+	return b
 }
 
 // ProcessBlock submits through BlockChain.ProcessBlock.
